@@ -337,7 +337,7 @@ def map_histories(nhist, seed, start_id, maxlen=10):
             if r < 0.45 and n_t < 5:
                 op = "addTier"
                 argt = new_tier(rng.choice(names))
-                args = {"idx": rng.choice([99] + list(range(-2, n_t + 3))), "mode": rng.choice(["silence", "warning", "error"])}
+                args = {"idx": rng.choice([99] + list(range(-2, n_t + 3))), "mode": rng.choice(["silence", "warning", "error", "error", "bogus"])}
             elif r < 0.6:
                 op = "removeTier"
                 args = {"name": rng.choice(names)}
@@ -347,7 +347,7 @@ def map_histories(nhist, seed, start_id, maxlen=10):
             else:
                 op = "replaceTier"
                 argt = new_tier(rng.choice(names))
-                args = {"name": rng.choice(names), "mode": rng.choice(["silence", "warning", "error"])}
+                args = {"name": rng.choice(names), "mode": rng.choice(["silence", "warning", "error", "error", "bogus"])}
             vec = {"op": op, "args": args, "pre": pre, "argt": argt, "argtg": NOTG}
             ev, _ = run_vector(vec, emb, pool, eid, recv=live)
             ev["hist"], ev["step"] = h, step
